@@ -121,7 +121,7 @@ class ServiceDecorator(Decorator):
         name = self.args[1]
         _LOGGER.debug("Registering service: %s.%s", domain, name)
         Function.service_register(
-            self.dm.ast_ctx.name,
+            self.dm.ast_ctx.global_ctx.get_name(),
             domain,
             name,
             self._service_callback,
